@@ -1656,7 +1656,7 @@ def _verify_ensemble_config(model_config):
           'CalibratedLatticeEnsemble must have >= 2 lattices. For single '
           'lattice models, use CalibratedLattice instead.')
     for lattice in model_config.lattices:
-      if (not np.iterable(lattice) or
+      if (not np.iterable(lattice) or not len(lattice) or
           any(not isinstance(x, str) for x in lattice)):
         raise ValueError(
             'Lattices are not fully specified for ensemble config.')
@@ -1802,7 +1802,7 @@ def verify_config(model_config):
       contains non-{int/float} values.
 
   """
-  if model_config.feature_configs is None:
+  if not model_config.feature_configs:
     raise ValueError('Feature configs must be fully specified.')
   if isinstance(model_config, configs.CalibratedLatticeEnsembleConfig):
     _verify_ensemble_config(model_config)
@@ -1815,6 +1815,7 @@ def verify_config(model_config):
   for feature_config in model_config.feature_configs:
     _verify_feature_config(feature_config)
   if (not np.iterable(model_config.output_initialization) or
+      not len(model_config.output_initialization) or
       any(not isinstance(x, (int, float))
           for x in model_config.output_initialization)):
     raise ValueError('Output initilization is invalid: {}'.format(
